@@ -15,10 +15,10 @@ METHODS = ["jacobian_self_oplus_other_wrt_self", "jacobian_self_oplus_other_wrt_
            "jacobian_self_ominus_other_wrt_self", "jacobian_self_ominus_other_wrt_self_compact", "jacobian_self_ominus_other_wrt_other", "jacobian_self_ominus_other_wrt_other_compact",
            "jacobian_boxplus", "jacobian_self_oplus_point_wrt_self", "jacobian_self_oplus_point_wrt_point", "jacobian_inverse"]
 RULE = ("cases from rng(seed, 10, 0, i): pose kind = i mod 4, hostile operands (as C09); all 12 Jacobian methods are evaluated per case: shape, compact-row relation, "
-        "manifold derivative vs AD (6/3/2 tangent directions), ambient derivative for R^n/SE(2). distinct = fingerprint of operands; non-trivial = both operands have "
+        "manifold derivative vs AD (6/3/2 tangent directions), ambient derivative for R^n/SE(2); every 3rd case repeats everything after the returned matrices were scribbled on and the pose objects modified in place. distinct = fingerprint of operands; non-trivial = both operands have "
         "non-zero translation and (SE types) non-identity rotation.")
 REQ = ["eval:shape", "eval:compact-rows", "eval:manifold-derivative", "eval:ambient-derivative", "eval:boxplus-jacobian", "class:kind:se3", "class:kind:se2", "class:q:wneg", "class:q:wzero",
-       "class:a:nearpi_in"] + ["method:" + m for m in METHODS]
+       "class:a:nearpi_in", "class:after_inplace_modification"] + ["method:" + m for m in METHODS]
 PLAN = {
     "quick": {"cases": 4000, "soft_s": 70, "min_nontrivial": 1000, "require": REQ},
     "thorough": {"cases": 200000, "soft_s": 1300, "min_nontrivial": 50000, "require": REQ},
@@ -44,13 +44,32 @@ def run_case(ctx, i, rng):
     pt, _ = gen.pose(rng, kp, maxexp)
     labels |= la | lb
     A, B, PT = M.mkpose(k, pa), M.mkpose(k, pb), M.mkpose(kp, pt)
-    a, b, p = M.fl(A), M.fl(B), M.fl(PT)
-    n, c, npt = R.FD[k], R.CD[k], R.FD[kp]
-    s = 1.0 + R.tmag(k, a) + R.tmag(k, b) + R.tmag(kp, p)
     ctx.count("class:kind:" + k)
     for lab in labels:
         ctx.count("class:" + lab)
-    case = {"kind": k, "self": a, "other": b, "point": p}
+    case, nontriv, results = all_methods(ctx, k, kp, A, B, PT, {})
+    if i % 3 == 0:
+        # history: a caller post-processes the returned matrices in place and updates the pose objects in place;
+        # later calls must still return the derivative at the current operands
+        for J in results.values():
+            if isinstance(J, np.ndarray) and J.flags.writeable:
+                J *= -3.0
+                J[0] = 7.0
+        for X, kk in ((A, k), (B, k), (PT, kp)):
+            new, _ = gen.pose(rng, kk, maxexp)
+            X[:] = M.fl(M.mkpose(kk, new))
+        ctx.count("class:after_inplace_modification")
+        all_methods(ctx, k, kp, A, B, PT, {"after_inplace_modification": True})
+    if nontriv:
+        ctx.nontrivial(gen.fingerprint(case))
+    ctx.sample(case, cap=2)
+
+
+def all_methods(ctx, k, kp, A, B, PT, extra_feats):
+    a, b, p = M.fl(A), M.fl(B), M.fl(PT)
+    n, c, npt = R.FD[k], R.CD[k], R.FD[kp]
+    s = 1.0 + R.tmag(k, a) + R.tmag(k, b) + R.tmag(kp, p)
+    case = dict({"kind": k, "self": a, "other": b, "point": p}, **extra_feats)
 
     # table: method -> (args, documented shape, reference op as function of (operand list), operand value, operand kind, real op result)
     with np.errstate(all="ignore"):
@@ -79,18 +98,19 @@ def run_case(ctx, i, rng):
     results = {}
     for name, args, shape, opname, full_of in table:
         ctx.count("method:" + name)
-        feats = {"kind": k, "method": name}
+        feats = dict({"kind": k, "method": name}, **extra_feats)
         with np.errstate(all="ignore"):
             try:
-                J = np.asarray(getattr(A, name)(*args), dtype=float)
+                Jraw = getattr(A, name)(*args)
+                J = np.asarray(Jraw, dtype=float)
             except Exception as ex:
                 ctx.check("shape", False, dict(feats, exception=type(ex).__name__), {"message": str(ex)[:200]}, case)
                 continue
-        results[name] = J
+        results[name] = Jraw if isinstance(Jraw, np.ndarray) else J
         if not ctx.check("shape", J.shape == shape, feats, {"shape": J.shape, "documented": shape}, case):
             continue
-        if full_of is not None and full_of in results and results[full_of].shape[0] >= c:
-            ctx.check("compact-rows", np.array_equal(J, results[full_of][:c]), feats, {"compact": J, "full_rows": results[full_of][:c]}, case)
+        if full_of is not None and full_of in results and np.asarray(results[full_of]).shape[0] >= c:
+            ctx.check("compact-rows", np.array_equal(J, np.asarray(results[full_of], dtype=float)[:c]), feats, {"compact": J, "full_rows": np.asarray(results[full_of])[:c]}, case)
         f, x0, kx, real_res = ops[opname]
         # derivative along the manifold of the operand
         rows = J.shape[0]
@@ -118,17 +138,17 @@ def run_case(ctx, i, rng):
     ctx.count("method:jacobian_boxplus")
     with np.errstate(all="ignore"):
         JB = np.asarray(A.jacobian_boxplus(), dtype=float)
-    if ctx.check("shape", JB.shape == (n, c), {"kind": k, "method": "jacobian_boxplus"}, {"shape": JB.shape, "documented": (n, c)}, case):
+    with np.errstate(all="ignore"):
+        results["jacobian_boxplus"] = A.jacobian_boxplus()
+    if ctx.check("shape", JB.shape == (n, c), dict({"kind": k, "method": "jacobian_boxplus"}, **extra_feats), {"shape": JB.shape, "documented": (n, c)}, case):
         _, Jb = R.jac(lambda d: R.box(k, a, d), c)
-        ctx.close("boxplus-jacobian", JB, Jb, 1e-11 * (1.0 + np.abs(Jb).max()), {"kind": k, "method": "jacobian_boxplus"}, None, case)
+        ctx.close("boxplus-jacobian", JB, Jb, 1e-11 * (1.0 + np.abs(Jb).max()), dict({"kind": k, "method": "jacobian_boxplus"}, **extra_feats), None, case)
     nontriv = R.tmag(k, a) > 0 and R.tmag(k, b) > 0
     if k == "se2":
         nontriv = nontriv and abs(a[2]) > 1e-12 and abs(b[2]) > 1e-12
     if k == "se3":
         nontriv = nontriv and abs(abs(a[6]) - 1) > 1e-12 and abs(abs(b[6]) - 1) > 1e-12
-    if nontriv:
-        ctx.nontrivial(gen.fingerprint(case))
-    ctx.sample(case, cap=2)
+    return case, nontriv, results
 
 
 def extra_stage(tier, seed, tmp):
